@@ -84,17 +84,21 @@ func window(s []byte, exact ...bool) []byte {
 	}
 	buf := make([]byte, 0, len(s)+12)
 	buf = append(buf, s...)
-	buf = append(buf, "ACGTACGTACGT"...)
+	buf = append(buf, windowTail...)
 	return buf[:len(s)]
 }
+
+// windowTail is what follows a window in its backing array: bases other than 'A' first, so that
+// a read beyond the end of the window shows in the result (padding is 'A', i.e. zero bits).
+const windowTail = "TGCATGCATGCA"
 
 // windowIntact verifies that the bytes behind a window made by window() were not written.
 func windowIntact(w []byte) error {
 	if cap(w) == len(w) {
 		return nil
 	}
-	if tail := w[len(w):cap(w)]; string(tail) != "ACGTACGTACGT" {
-		return fmt.Errorf("the caller's memory behind the input slice (its spare capacity, which holds the caller's next bases) was written: %q became %q (input %q)", "ACGTACGTACGT", tail, w)
+	if tail := w[len(w):cap(w)]; string(tail) != windowTail {
+		return fmt.Errorf("the caller's memory behind the input slice (its spare capacity, which holds the caller's next bases) was written: %q became %q (input %q)", windowTail, tail, w)
 	}
 	return nil
 }
